@@ -8,6 +8,7 @@ import (
 	"math"
 	"strings"
 	"sync"
+	"time"
 	"unicode/utf8"
 
 	"golang.org/x/tools/go/ssa"
@@ -105,6 +106,7 @@ type Engine struct {
 	initRunning map[*ssa.Package]bool
 	inInit      int
 	initTarget  *ssa.Function
+	deadline    time.Time
 }
 
 func (fr *frame) put(v ssa.Value, x Value) {
@@ -395,7 +397,12 @@ func (e *Engine) eqVal(a, b Value) Value {
 		default:
 			return boolVal(tEq(x, intTerm(b, sortBits(x.Sort))))
 		}
-	case string, *UStr:
+	case string:
+		return predStr2(a, b, func(p, q string) bool { return p == q })
+	case *UStr:
+		if y, ok := b.(*UStr); ok && x == y {
+			return true
+		}
 		return predStr2(a, b, func(p, q string) bool { return p == q })
 	case *Agg:
 		y := b.(*Agg)
@@ -537,6 +544,9 @@ func (e *Engine) run(fr *frame, blk *ssa.BasicBlock) Value {
 			e.steps++
 			if e.steps > e.sh.cfg.MaxSteps {
 				panic(outOfBound{"step budget exceeded"})
+			}
+			if e.steps&0xfff == 0 && time.Now().After(e.deadline) {
+				panic(outOfBound{"time budget exceeded inside a path"})
 			}
 			switch in := ins.(type) {
 			case *ssa.Phi:
